@@ -25,16 +25,22 @@ CFG = {
     theorems=[P+"C03", P+"C03_histories", P+"C03_one_upsert"],
     text="Theorem: equal root digests imply equal content for any two trees whose page pre-images are collision free (Merkle induction over lt-child, node and high-page tokens); corollaries for histories and for a single upsert. SipHash itself is modelled, not verified.",
     assumptions=[A_TOTAL, A_LVL, A_CF, A_MODEL]),
- "C04": dict(streams=S("dsmall","drand"), level="translation_validation", theorems=[],
-    text="(being proved) model tied by exhaustive pair streams + implementation oracle over all pairs of contents.", assumptions=[A_MODEL]),
+ "C04": dict(streams=S("dsmall","drand"), level="proof",
+    theorems=[P+"C04", P+"C04_some_direction", P+"C04_start_held"],
+    text="Theorems (all pairs of hashed real trees: any contents, spans nested / partially overlapping / disjoint / empty, any level structure): both diffs empty implies equal content; if contents differ some direction reports a range; every reported range starts at a key the peer holds. Tied by exhaustive ordered-pair streams (all contents over 4-5 keys x all level assignments) and the implementation-side oracle.",
+    assumptions=[A_TOTAL, A_LVL, A_CF, A_MODEL]),
  "C05": dict(streams=S("dsmall","drand"), level="translation_validation", theorems=[],
     text="(being proved) model tied by exhaustive pair streams + implementation oracle.", assumptions=[A_MODEL]),
  "C06": dict(streams=S("dsmall","drand"), level="translation_validation", theorems=[],
     text="(being proved) model tied by pair streams.", assumptions=[A_MODEL]),
- "C07": dict(streams=S("dsmall","drand"), level="translation_validation", theorems=[],
-    text="(being proved) model tied by exhaustive pair streams + implementation oracle.", assumptions=[A_MODEL]),
- "C08": dict(streams=S("dsmall","drand","tsmall"), level="translation_validation", theorems=[],
-    text="(being proved) model tied by exhaustive pair streams + implementation oracle.", assumptions=[A_MODEL]),
+ "C07": dict(streams=S("dsmall","drand"), level="proof",
+    theorems=[P+"C07", P+"C07_empty_local"],
+    text="Theorems: under the span condition every peer entry the local tree lacks or holds with another digest lies in a returned range (soundness of every consistent mark via Merkle injectivity + contiguity of sub-pages; the whole peer span is marked inconsistent at the first iteration; reduce keeps bad minus good); an empty replica obtains the whole span.",
+    assumptions=[A_TOTAL, A_LVL, A_CF, A_MODEL]),
+ "C08": dict(streams=S("dsmall","drand","tsmall"), level="proof",
+    theorems=[P+"C08", P+"C08_histories", P+"C08_empty_peer"],
+    text="Theorems: hashed trees with equal content diff to nothing in both directions, for any pair of histories reaching that content; a diff against an empty peer is empty for any local list.",
+    assumptions=[A_TOTAL, A_LVL, A_MODEL]),
  "C09": dict(streams=S("tsmall","trand"), level="proof",
     theorems=[P+"C09", P+"C09_prefix", P+"C09_canonical"],
     text="Theorem: at every state reachable by any history the in-order keys are strictly ascending and the level stratification / non-emptiness invariant holds; these conditions force the unique shape (root_unique).",
@@ -43,10 +49,14 @@ CFG = {
     theorems=[P+"C10", P+"C10_frame"],
     text="Theorem: after any history the content is the key-sorted last-write-wins map (each key once, latest value digest); an upsert leaves every other key's entry untouched.",
     assumptions=[A_TOTAL, A_LVL, A_MODEL]),
- "C11": dict(streams=S("tsmall","trand","tcfg"), level="translation_validation", theorems=[],
-    text="(property file pending) serialise_spec / Pages lemmas proved; model tied by streams comparing every serialisation.", assumptions=[A_MODEL]),
- "C12": dict(streams=S("lsmall","lrand","dsmall","drand"), level="translation_validation", theorems=[],
-    text="(property file pending) list part proved in C13_partial.", assumptions=[A_MODEL]),
+ "C11": dict(streams=S("tsmall","trand","tcfg"), level="proof",
+    theorems=[P+"C11_preorder", P+"C11_once", P+"C11_entry", P+"C11_first", P+"C11_nested", P+"C11_siblings", P+"C11_histories"],
+    text="Theorems (every reachable hashed tree): the serialisation succeeds and is the pre-order list of pages, each exactly once, each as (first key, last key of its subtree, its digest); first entry spans the tree with the root hash; entries nest inside every page they are listed under; sibling spans are disjoint and ascending; empty tree gives the empty list. Every serialisation produced in the streams is compared with the model's and with an independent reference implementation.",
+    assumptions=[A_TOTAL, A_LVL, A_MODEL]),
+ "C12": dict(streams=S("lsmall","lrand","dsmall","drand"), level="proof",
+    theorems=[P+"C12_list", P+"C12_tree"],
+    text="Theorems: for arbitrary valid page-range lists the output is ascending, disjoint without shared end points, start<=end; for real trees every range additionally lies within the peer's span, starts at a peer key and ends at a peer or local key.",
+    assumptions=[A_TOTAL, A_LVL, A_MODEL]),
  "C13": dict(streams=S("lsmall","lrand", profiles=["debug","release"]), level="proof", stack_ladder=True,
     theorems=[P+"C13_partial", P+"C13_constructor"],
     text="PARTIAL. Theorem C13_partial (all finite lists with start<=end, any length/nesting/order/digests): diff terminates, trips no assertion, returns sorted disjoint well-formed ranges with bounds from the input. Not provable in a functional model: stack boundedness. The stack part is decided by replaying nested chains on a 2 MiB thread in debug and release: depths <= 4096 must pass; the overflow at depth ~12000 is known finding F2.",
@@ -55,8 +65,10 @@ CFG = {
     theorems=[P+"C14_level", P+"C14_level_bound", P+"C14_root", P+"C14_pages"],
     text="Theorems: level = declarative reference for every byte string and base; after any history the root hash and every page digest equal those of the reference construction built from the sorted content alone. The byte level (token order, SipHash-2-4-128 zero key, finish128 byte order) is executable Lean tied to the siphasher crate and the library by the sip/lvl/hash streams over bases and widths; an independent Rust reference implementation is the implementation-side oracle.",
     assumptions=[A_TOTAL, A_LVL, A_MODEL, "SipHash-2-4-128 modelled, not verified"]),
- "C15": dict(streams=S("tsmall","trand","dsmall","drand", profiles=["debug","release"]), level="translation_validation", theorems=[],
-    text="(property file pending) run_inv / serialise_spec / iterAll_eq_content / diff_total proved.", assumptions=[A_MODEL]),
+ "C15": dict(streams=S("tsmall","trand","dsmall","drand", profiles=["debug","release"]), level="proof",
+    theorems=[P+"C15_history", P+"C15_serialise", P+"C15_iter", P+"C15_traverse", P+"C15_diff"],
+    text="Theorems: with every panic/unwrap/expect/assert/debug_assert site of the modelled code an explicit error, every history of upserts and hash requests, serialisation at every state (and Some after a hash), node iteration, traversal and the diff of any two hashed real trees return ok - no assertion is reachable. Streams run in debug (assertions on) and release profiles with catch_unwind around every operation.",
+    assumptions=[A_TOTAL, A_LVL, A_MODEL, "allocation failure / stack not modelled"]),
  "C16": dict(streams=S("dsmall","drand","trand"), level="proof",
     theorems=[P+"C16_roundtrip", P+"C16_diff"],
     text="PARTIAL. Theorems: rebuilding ranges from accessor values never panics and yields equal ranges; diff is the same in either argument position. 'A snapshot keeps describing the tree as it was' is ownership, true by construction in a functional model: modelled, not proved; decided by the harness (borrowed vs PageRangeSnapshot vs rebuilt diffs compared on every tree pair).",
@@ -65,8 +77,11 @@ CFG = {
     theorems=[P+"C17_iter", P+"C17_stop", P+"C17_stop_prefix", P+"C17_protocol_page", P+"C17_protocol_node"],
     text="Theorems (every tree, every visitor, every stop index): the node iterator yields exactly the visit_node sequence; a visitor sees exactly the full callback sequence cut after the first false; the nesting protocol is the (6-line) definition of the trace, tied to the code by comparing every callback sequence incl. early stops, and checked independently by a grammar parser on the implementation side.",
     assumptions=[A_MODEL]),
- "C18": dict(streams=[dict(name="tcfg", profiles=["debug","release"], features=["","mst_default","mst_all"])], level="translation_validation", theorems=[],
-    text="(property file pending) every theorem is generic in lvl (hasher+base), key type, digest types; constructors/feature sets are decided by correspondence across 3 feature sets x 2 profiles.", assumptions=[A_MODEL]),
+ "C18": dict(streams=[dict(name="tcfg", profiles=["debug","release"], features=["","mst_default","mst_all"])], level="proof",
+    theorems=[P+"C18_base_content", P+"C18_generic"],
+    text="PARTIAL. Theorems: every property theorem is universally quantified over key type, digest types, level function (hasher x base) and page hasher; the base changes only the shape, never the content; equal configurations agree. Not modelled: the three constructors, Builder, SipHasher::new(seed), feature-gated code - decided by the tcfg correspondence stream (bases, widths, key kinds, default/seeded/custom hashers, three constructors) across 3 feature sets x 2 profiles.",
+    assumptions=[A_TOTAL, A_LVL, A_MODEL, "constructors / Builder / cargo features are glue decided by correspondence only"]),
+
 }
 
 def main():
